@@ -233,6 +233,7 @@ theorem requeued_until_reset_partial (c : Conn) (op : Op) (e : QElem) (he : e âˆ
     | setSched l d => exact h0
     | tick ms => exact h0
     | setSmCallback => exact h0
+    | setSendOnConnect on => exact h0
     | setFlags f =>
       show QT e c.tx.length (setFlags c f).1
       unfold setFlags
